@@ -768,6 +768,12 @@ def apply_fn(prog, fterm, args):
                 and [fd["name"] for fd in a["variants"][0]["fields"]] == [str(i) for i in range(len(args))]:
             # a tuple struct's constructor used as a function value: `r.map(Self)`
             return ("aggr", fterm[2], fterm[2].rpartition("::")[2], tuple((str(i), x) for i, x in enumerate(args)))
+        f0 = prog.fns.get(fterm[2])
+        if f0 is not None and not args and f0.arg_count == 0 and f0.blocks and prog.is_private_helper(fterm[2]):
+            # a private argument-less function used as a function value (`.ok_or_else(nesting_error)`): the value it returns
+            rt0 = Prov(f0).return_term()
+            if not any(isinstance(x, tuple) and x and x[0] in ("param", "loop", "undef", "phi") for x in subterms(rt0)):
+                return rt0
         if fterm[2] in prog.fns or fterm[2].startswith("<"):
             # a named crate function used as a function value (`o.map(Value::try_as_bytes)`): the call it stands for
             return ("call", fterm[2], tuple(args), ("<fn-item>", fterm[1]))
